@@ -80,7 +80,10 @@ class TableEntry (object):
     """
     Exact matches effectively have an "infinite" priority
     """
-    return self.priority if self.match.is_wildcarded else (1<<16) + 1
+    # (Judge by the wire form: fields which are ignored for this match's
+    #  protocols count as wildcarded in the normalized form)
+    wild = self.match._wire_wildcards(self.match.wildcards) & OFPFW_ALL
+    return self.priority if wild else (1<<16) + 1
 
   def is_matched_by (self, match, priority=None, strict=False, out_port=None):
     """
